@@ -71,8 +71,30 @@ impl RegisterAllocator {
         // This keeps register usage contiguous
         if r == self.next.saturating_sub(1) {
             self.next = r;
+            // Registers freed earlier that now sit directly below `next` rejoin the contiguous
+            // free area, so that a later range reservation can use them again
+            while self.next > 0 {
+                let top = self.next - 1;
+                match self.free_list.iter().position(|&f| f == top) {
+                    Some(pos) => {
+                        self.free_list.swap_remove(pos);
+                        self.next = top;
+                    }
+                    None => break,
+                }
+            }
         } else {
             self.free_list.push(r);
+        }
+    }
+
+    /// Release a range handed out by `reserve_range` once the instruction that consumes it
+    /// (call, array/template construction) has been emitted
+    pub fn release_range(&mut self, start: Register, count: usize) {
+        for offset in (0..count).rev() {
+            if let Some(r) = u8::try_from(offset).ok().and_then(|o| start.checked_add(o)) {
+                self.free(r);
+            }
         }
     }
 
@@ -568,6 +590,11 @@ impl BytecodeBuilder {
     /// Reserve a range of consecutive registers
     pub fn reserve_registers(&mut self, count: usize) -> Result<Register, JsError> {
         self.registers.reserve_range(count)
+    }
+
+    /// Release a range reserved with `reserve_registers`
+    pub fn release_registers(&mut self, start: Register, count: usize) {
+        self.registers.release_range(start, count);
     }
 }
 
